@@ -28,7 +28,7 @@ MAP = {
     "C18_m1": [("C18", "peak.float32.float.ch1")], "C18_m2": [("C18", "calc.SFC_CALC_MAX_ALL_CHANNELS.ch2")],
     "C19_m1": [("C19", "fileio.ownership")], "C19_m2": [("C19", None)],
     "C20_m1": [("C20", "adpcm.ms.ch1")], "C20_m2": [("C20", "adpcm.ima_wav.ch1.b8")],
-    "C01_m3": [("C01", "alac.stage.write.short.ch2")], "C01_m4": [("C02", None), ("C01", "sg.double")],
+    "C01_m3": [("C01", "alac.stage.write.short.ch2")], "C01_m4": [("C01", "fconv.double64.d2i"), ("C02", "fconv.double64.d2i")],
     "C03_m3": [("C03", "readf.j")], "C03_m4": [("C17", "cmd.SFC_GET_CUE"), ("C03", "cmd.SFC_GET_CUE")],
     "C04_m3": [("C04", "alac.stage.pakt")], "C04_m4": [("C04", "rt.wavex")],
     "C05_m3": [("C05", "alac.stage.read.double.ch2")], "C05_m4": [("C05", "blk.ms")],
@@ -40,6 +40,7 @@ MAP = {
     "C16_m3": [("C16", None)], "C16_m4": [("C16", None)],
     "R_g711_intmin": [("C20", "g711.H_ENCODE_I")], "R_d2sc_clip": [("C02", "sc.WR_D.norm1.clip1")], "R_cmdstr0": [("C17", "cmd.SFC_GET_LIB_VERSION")],
     "R_embedshort": [("C14", "embed_open.au.k4,embed_open.au.k1.")], "R_peak_double": [("C18", "peak.double64.double.ch1")], "R_sds_close": [("C01", "blk.sds16.flush.k10")],
+    "R_d2i_clip": [("C02", "fconv.double64.d2i_clip")],
     "R_cart_calloc": [("C03", "wavleaf.cart")],
     "R_wchunk_count": [("C13", "wgrow.count20,chunk.seq.33")], "R_iter_stale": [("C13", "chunk.iter")],
 }
